@@ -3,6 +3,8 @@ CONSTANTS
   Thresholds = {1, 2, 3}
   MaxResults = 8
   CmpStrict = TRUE
+  MaxReconf = 1
+  IgnoreSameInterval = FALSE
 VIEW GenView
 ACTION_CONSTRAINT Emit
 CHECK_DEADLOCK FALSE
